@@ -181,14 +181,18 @@ def judge(case, acc, ctx):
         fh.write("")
     cores = [f"sysbuild,,,{art}sys.config"]
     samples = case.get("children") or {}
+    rename = IMAGE_NAMES if case.get("image_names") else {}
     for s in subset:
         cores.append(f"{s},{art}{s}_core.bin,,{art}empty.config")
-        make_child(f"{art}{s}.suit", names[s], samples.get(s), k)
-    classes = [f"template:{template}", f"subset:{'+'.join(subset)}", ("mixed-case-names" if custom == "mixed" else "markup-names" if custom == "markup" else "custom-names") if custom else "default-names", f"version:{ver}"]
-    acc.case(nt_key=(template, subset, custom, ver, k, json.dumps(G.shape(samples))), classes=classes, sample={kk: v for kk, v in case.items() if kk != "children"},
+        make_child(f"{art}{rename.get(s, s)}.suit", names[s], samples.get(s), k)
+    classes = [f"template:{template}", f"subset:{'+'.join(subset)}", ("mixed-case-names" if custom == "mixed" else "markup-names" if custom == "markup" else "custom-names") if custom else "default-names", f"version:{ver}"] + (["free-text-image-names"] if rename else [])
+    acc.case(nt_key=(template, subset, custom, ver, k, bool(rename), json.dumps(G.shape(samples))), classes=classes, sample={kk: v for kk, v in case.items() if kk != "children"},
              sample_key=f"{template}/{'+'.join(subset)}/{ver}")
     try:
         data = B.read_configurations(cores, None)
+        for s in subset:
+            if s in rename:
+                data[s]["name"] = rename[s]  # the image's NAME (free text) is not the template variable it is filed under
         if ver in VERSION_FILES:
             with open(art + "VERSION", "w") as fh:
                 fh.write(VERSION_FILES[ver][0])
@@ -246,7 +250,9 @@ VERSION_FILES = {
     "file-prerelease": ("VERSION_MAJOR = 1\nVERSION_MINOR = 2\nPATCHLEVEL = 3\nEXTRAVERSION = rc1\n", ((1 << 24) + (2 << 16) + (3 << 8), [1, 2, 3, -1, 1])),
     "file-unsupported-extra": ("VERSION_MAJOR = 1\nVERSION_MINOR = 2\nPATCHLEVEL = 3\nVERSION_TWEAK = 0\nEXTRAVERSION = dev\n", ((1 << 24) + (2 << 16) + (3 << 8), [1, 2, 3, -3])),
 }
-EXTRA_CONFIGURATIONS = 22
+EXTRA_CONFIGURATIONS = 25
+# image names are free text (the '#name' by which the envelope is fetched and integrated, and its file name)
+IMAGE_NAMES = {"radio": "radio core", "application": "Anwendung-\u00e4", "top": "top^1|x", "secdom": "sec dom", "sysctrl": "sys`ctrl"}
 
 
 def configurations():
@@ -257,6 +263,9 @@ def configurations():
     for ver in ("override-big", "override-max"):
         yield {"template": "root", "subset": ["application"], "custom": False, "ver": ver}
         yield {"template": "top", "subset": ["secdom", "sysctrl"], "custom": False, "ver": ver}
+    yield {"template": "root", "subset": ["radio", "application", "top"], "custom": False, "ver": "none", "image_names": True}
+    yield {"template": "root", "subset": ["application"], "custom": True, "ver": "file", "image_names": True}
+    yield {"template": "top", "subset": ["secdom", "sysctrl"], "custom": False, "ver": "none", "image_names": True}
     yield {"template": "root", "subset": ["radio", "application", "top"], "custom": True, "ver": "none", "cwd_artifacts": True}
     yield {"template": "root", "subset": ["application"], "custom": False, "ver": "file", "cwd_artifacts": True}
     yield {"template": "top", "subset": ["secdom", "sysctrl"], "custom": False, "ver": "override", "cwd_artifacts": True}
@@ -321,4 +330,4 @@ def finalize(ctx, m, ev):
     ev["coverage"]["exhaustive"] = m["info"].get("configurations") == 87 + EXTRA_CONFIGURATIONS
     ev["coverage"]["exhaustive_scope"] = "configuration product (7 subsets x 4 name sets x 3 + top x 3 = 87, plus 15 VERSION-file cells and 3 runs from inside the artifacts directory) enumerated completely; child envelopes sampled"
     if m["info"].get("configurations") != 87 + EXTRA_CONFIGURATIONS:
-        raise boot.HarnessError(f"{m['info'].get('configurations')} of 109 configurations covered")
+        raise boot.HarnessError(f"{m['info'].get('configurations')} of 112 configurations covered")
